@@ -437,10 +437,26 @@ def build(repo=None):
     # ---------------------------------------------------------------- the loader: get_code / source_to_code executed path by path
     ldr = mod.cls("_JaxtypingLoader")
     meths = {b.name: b for b in ldr.body if isinstance(b, ast.FunctionDef)}
-    with_patch = {nm: [w for w in ast.walk(f) if isinstance(w, ast.With) and any("patch(" in ast.unparse(i.context_expr) for i in w.items)] for nm, f in meths.items()}
-    users = [nm for nm, ws in with_patch.items() if ws]
+    def patches_cfs(f):
+        for w in ast.walk(f):
+            if isinstance(w, ast.With) and any("patch" in ast.unparse(i.context_expr) and "cache_from_source" in ast.unparse(i.context_expr) for i in w.items):
+                return True
+            if isinstance(w, (ast.Assign, ast.AugAssign, ast.AnnAssign)):
+                tg = w.targets if isinstance(w, ast.Assign) else [w.target]
+                if any(isinstance(t, ast.Attribute) and t.attr == "cache_from_source" for t in tg):
+                    return True
+            if isinstance(w, ast.Call) and getattr(w.func, "id", getattr(w.func, "attr", "")) in ("setattr", "patch", "object") and "cache_from_source" in ast.unparse(w) and not isinstance(w.func, ast.Attribute):
+                return True
+        return False
+
+    users = []
+    for b_ in mod.tree.body:
+        if isinstance(b_, ast.FunctionDef) and patches_cfs(b_):
+            users.append(b_.name)
+        elif isinstance(b_, ast.ClassDef):
+            users += [f"{b_.name}.{c.name}" for c in b_.body if isinstance(c, ast.FunctionDef) and patches_cfs(c)]
     obligations.append({"clause": "C18:cache_from_source-is-patched-only-inside-this-loader's-get_code(never-while-a-module-body-runs)", "kind": "vc", "pc": [], "path": [], "meta": {"patch_users": z3.StringVal(",".join(users))}, "serves": ["C18"],
-                        "goal": z3.BoolVal(users == ["get_code"])})
+                        "goal": z3.BoolVal(users == ["_JaxtypingLoader.get_code"])})
     gc = meths.get("get_code")
     if gc is None:
         raise NotFound("_JaxtypingLoader.get_code")
@@ -490,6 +506,31 @@ def build(repo=None):
             bad.ghost["window_calls"] = bad.ghost["window_calls"] + [(tuple(args), dict(kw), bad.ghost.get("patched"), None)]
             return [(ok, res), (bad, Raised(Exc(frozenset(ANY_EXC), origin="super().get_code")))]
 
+        # a patch written by hand (`mod.cache_from_source = new ... mod.cache_from_source = original`) drives the same ghost flag
+        ORIGINAL = Opaque("the-original-cache_from_source")
+        bext_aliases = {"global:" + (al.asname or al.name.split(".")[0]) for b in mod.tree.body if isinstance(b, ast.Import) for al in b.names if al.name == "importlib._bootstrap_external" and al.asname}
+
+        def is_bext(recv):
+            return isinstance(recv, Opaque) and (recv.tag in bext_aliases or recv.tag.endswith("_bootstrap_external"))
+
+        def a_cfs(e_, s_, recv, nd):
+            if not is_bext(recv):
+                return None
+            cm = s_.ghost.get("patched")
+            return [(s_, ORIGINAL if cm is None else s_.get(cm).attrs["new"])]
+
+        def m_setattr(e_, s_, recv, attr, v, nd):
+            if attr != "cache_from_source" or not is_bext(recv):
+                return None
+            s1 = s_.clone()
+            if v is ORIGINAL:
+                s1.ghost["patched"] = None
+            else:
+                s1.ghost["patched"] = s1.alloc(Obj("patch-cm", {"target": Z("str", z3.StringVal("importlib._bootstrap_external.cache_from_source")), "new": v}, tag="patch-by-hand"))
+            return [(s1, NORMAL)]
+
+        e.attr_models["cache_from_source"] = a_cfs
+        e.method_models["__setattr__"] = m_setattr
         e.globals["patch"] = Fn("patch", model=m_patch)
         e.globals["super"] = Fn("super", model=lambda e_, s_, a, kw, nd: [(s_, Opaque("super()"))])
         e.globals["ft"] = Opaque("global:ft")
@@ -507,6 +548,7 @@ def build(repo=None):
     for s1, o in eng.run(gc.body, st):
         paths += 1
         calls = s1.ghost["window_calls"]
+        eng.oblige(s1, "C18:get_code:the-patch-is-undone-on-exit", z3.BoolVal(s1.ghost.get("patched") is None))
         if o.kind == "raise":
             # only the wrapped get_code's own exception may leave (ImportError, SyntaxError of the module, ...)
             eng.oblige(s1, "C18:get_code:raises-only-what-super().get_code-raised", z3.BoolVal(getattr(o.val, "origin", None) == "super().get_code"))
@@ -523,7 +565,6 @@ def build(repo=None):
                 if isinstance(f0, Fn) and f0.node is oc and len(a0) == 1 and isinstance(a0[0], Z) and a0[0].kind == "str" and not po.attrs["kwargs"].items:
                     tagged = z3.And(tgt.t == z3.StringVal("importlib._bootstrap_external.cache_from_source"), a0[0].t == hsh)
         eng.oblige(s1, CLAUSE_GC, tagged if tagged is not None else z3.BoolVal(False))
-        eng.oblige(s1, "C18:get_code:the-patch-is-undone-on-exit", z3.BoolVal(s1.ghost.get("patched") is None))
     collect(st.obl, ["C18", "C11"])
     gh = mod.func("Typechecker.get_hash")
     obligations.append({"clause": "C18:get_hash-returns-the-hash-set-at-construction", "kind": "vc", "pc": [], "path": [], "meta": {}, "serves": ["C18", "C11"],
